@@ -177,6 +177,14 @@ def dynslot_rule(chk, db):
             return None
         if c.get("k") == "un" and c["op"] == "!":
             return own_dynamic_test(c["e"], not taken, env)
+        if c.get("k") == "call" and astx.callee(c)[0] and (astx.callee(c)[3] != "member" or astx.is_this(astx.callee(c)[2])):
+            # a private predicate of the same class (`_is_dynamic(i)`): its one-line return is the test
+            hs = [g for g in db.methods(EXTENTS, astx.callee(c)[0]) if g.get("body") is not None and len(g["params"]) == len(c["a"])]
+            if len(hs) == 1:
+                from .. import terms as _T
+                r = _T.one_line_return(hs[0])
+                if r is not None:
+                    return own_dynamic_test(r, taken, env)
         if c.get("k") == "bin" and c["op"] in ("==", "!="):
             sides = [astx.strip_casts(c["l"]), astx.strip_casts(c["r"])]
             sides = [astx.strip_casts(env[x["n"]]) if x is not None and x.get("k") == "ref" and x.get("n") in env else x for x in sides]
@@ -246,8 +254,9 @@ def dynslot_rule(chk, db):
 def transpose_rule(chk, db):
     """TRANSP: layout_transpose::mapping::stride(r) is the nested mapping's stride with the last two dimensions exchanged
     ([linalg.transp.layout.transpose]): r == rank-1 -> stride(r-1), r == rank-2 -> stride(r+1), otherwise stride(r).
-    Decided per structural path on linear forms in (r, rank)."""
-    from ..rules import sets as SP, slots as SL
+    The function is evaluated as a decision procedure in the three cases; tests and arguments are linear forms in (r, rank),
+    locals and conditional expressions are resolved."""
+    from ..rules import slots as SL
     fs = [f for f in db.funcs if (f.get("record") or "").startswith("etl::linalg::layout_transpose") and f["n"] == "stride" and f.get("body") is not None]
     if not fs:
         chk.analysis_broken("TRANSP: layout_transpose::mapping::stride no longer exists")
@@ -256,59 +265,110 @@ def transpose_rule(chk, db):
     r = f["params"][0]["n"]
     construct = astx.sig(f)
     chk.instance("TRANSP")
-    env = SL.Env(f, False)
 
-    def lin(e):
-        e = astx.strip_casts(e)
-        if e is not None and e.get("k") == "call" and astx.callee(e)[0] == "rank":
-            return SL.sym("rank")
-        if e is not None and e.get("k") == "bin" and e["op"] in ("+", "-"):
-            a, b = lin(e["l"]), lin(e["r"])
-            if a is None or b is None:
+    class NM(Exception):
+        pass
+
+    def run_case(case):
+        """case: 1 (r == rank-1), 2 (r == rank-2), 0 (neither); returns the linear form of the nested stride's argument"""
+        env = SL.Env(f, False)
+        inits = {}
+
+        def lin(e):
+            e = astx.strip_casts(e)
+            if e is None:
                 return None
-            return a + b if e["op"] == "+" else a - b
-        return SL.lin(e, env)
-    want = {"rank-1": SL.sym(r) - SL.const(1), "rank-2": SL.sym(r) + SL.const(1), "other": SL.sym(r)}
+            if e.get("k") == "paren":
+                return lin(e.get("e"))
+            if e.get("k") == "ref" and e.get("n") in inits:
+                return lin(inits[e["n"]])
+            if e.get("k") == "call" and astx.callee(e)[0] == "rank":
+                return SL.sym("rank")
+            if e.get("k") == "bin" and e["op"] in ("+", "-"):
+                x, y = lin(e["l"]), lin(e["r"])
+                if x is None or y is None:
+                    return None
+                return x + y if e["op"] == "+" else x - y
+            if e.get("k") == "cond":
+                return lin(e["t"]) if truth(e["c"]) else lin(e["f"])
+            return SL.lin(e, env)
+
+        def truth(c):
+            c = astx.strip_casts(c)
+            if c is None:
+                raise NM("empty test")
+            if c.get("k") == "paren":
+                return truth(c.get("e"))
+            if c.get("k") == "ref" and c.get("n") in inits:
+                return truth(inits[c["n"]])
+            if c.get("k") == "un" and c["op"] == "!":
+                return not truth(c["e"])
+            if c.get("k") == "bin" and c["op"] in ("&&", "||"):
+                return (truth(c["l"]) and truth(c["r"])) if c["op"] == "&&" else (truth(c["l"]) or truth(c["r"]))
+            if c.get("k") == "bin" and c["op"] in ("==", "!="):
+                x, y = lin(c["l"]), lin(c["r"])
+                if x is None or y is None:
+                    raise NM("test `%s`" % astx.show(c, 40))
+                d = x - y
+                if d.c.get(r, 0) == -1:
+                    d = -d
+                if d.c.get(r, 0) == 1 and d.c.get("rank", 0) == -1 and set(d.c) <= {r, "rank"}:
+                    eq = (d.k == case)          # r - rank + k == 0  <=>  r == rank - k
+                    return eq if c["op"] == "==" else not eq
+            raise NM("test `%s`" % astx.show(c, 40))
+
+        def run(st):
+            k = st.get("k") if st else None
+            if st is None or k == "null":
+                return None
+            if k == "seq":
+                for x in st["s"]:
+                    v = run(x)
+                    if v is not None:
+                        return v
+                return None
+            if k == "decl":
+                for v in st["vars"]:
+                    if "other" not in v and v.get("init") is not None:
+                        inits[v["n"]] = v["init"]
+                return None
+            if k == "if":
+                br = st.get("then") if truth(st["c"]) else st.get("else")
+                return run(br) if br else None
+            if k == "return":
+                calls = [x for x in astx.walk_expr(st.get("e")) if x.get("k") == "call" and astx.callee(x)[0] == "stride"]
+                if len(calls) != 1 or not calls[0]["a"]:
+                    raise NM("a return that is not one call of the nested stride")
+                v = lin(calls[0]["a"][0])
+                if v is None:
+                    raise NM("argument `%s`" % astx.show(calls[0]["a"][0], 30))
+                return ("ret", v, calls[0])
+            if k == "expr":
+                return None
+            raise NM("statement %s" % k)
+        return run(f["body"])
+
+    want = {1: SL.sym(r) - SL.const(1), 2: SL.sym(r) + SL.const(1), 0: SL.sym(r)}
     bad = None
     unknown = None
-    seen = set()
-    for p in SP.paths(f["body"]):
-        case = "other"
-        ok_path = True
-        for ev in p:
-            if ev[0] == "cond":
-                c = astx.strip_casts(ev[1])
-                if c is not None and c.get("k") == "bin" and c["op"] == "==":
-                    l, rr = lin(c["l"]), lin(c["r"])
-                    if l is not None and rr is not None:
-                        d = (l - rr) if l.c.get(r, 0) == 1 else (rr - l)
-                        # r - rank + k == 0
-                        if d.c.get(r, 0) == 1 and d.c.get("rank", 0) == -1 and set(d.c) <= {r, "rank"}:
-                            if ev[2]:
-                                case = "rank-%d" % d.k if d.k in (1, 2) else "rank-?"
-                            continue
-                unknown = "a test is not of the form r == rank() - k"
-            if ev[0] == "ret" and ev[1] is not None:
-                calls = [x for x in SP.calls_in(ev[1]) if astx.callee(x)[0] == "stride"]
-                if len(calls) != 1 or not calls[0]["a"]:
-                    unknown = "a return is not a call of the nested mapping's stride"
-                    continue
-                got = lin(calls[0]["a"][0])
-                seen.add(case)
-                if case in want and got is not None and got != want[case] and bad is None:
-                    bad = (calls[0], case, got, want[case])
-    if not {"rank-1", "rank-2", "other"} <= seen and bad is None and unknown is None:
-        unknown = "the three cases r == rank-1, r == rank-2, otherwise are not all present"
-    chk.obligation("TRANSP", construct, False if bad else (None if unknown else True))
+    for case in (1, 2, 0):
+        try:
+            res = run_case(case)
+        except NM as ex:
+            unknown = str(ex)
+            break
+        if res is None:
+            unknown = "no return reached"
+            break
+        if res[1] != want[case] and bad is None:
+            bad = (res[2], case, res[1], want[case])
+    chk.obligation("TRANSP", construct, False if bad else (None if unknown else True), evaluations=3)
     if bad:
-        chk.violation("TRANSP", construct, "transposed-stride", "%s: for r == %s the nested stride is taken at `%s`; the transposed layout exchanges the "
-                      "last two dimensions: `%s`" % (astx.loc(f, bad[0]), bad[1].replace("rank", "rank()"), bad[2], bad[3]), {"where": astx.loc(f)})
+        chk.violation("TRANSP", construct, "transposed-stride", "%s: for %s the nested stride is taken at `%s`; the transposed layout exchanges the "
+                      "last two dimensions: `%s`" % (astx.loc(f, bad[0]), {1: "r == rank()-1", 2: "r == rank()-2", 0: "every other r"}[bad[1]], bad[2], bad[3]),
+                      {"where": astx.loc(f)})
     elif unknown:
-        chk.unknown_instance("TRANSP", construct, unknown)
-
-
-META_EXTRA = "DYNSLOT (dynamic-extent slots selected by the type's own pattern; bulk copies only for rank_dynamic() values); TRANSP (transposed stride table)."
-META = (META[0] + " " + META_EXTRA, META[1])
+        chk.unknown_instance("TRANSP", construct, "not a modelled decision procedure: " + unknown)
 
 
 def transpose_extents_rule(chk, db):
